@@ -176,7 +176,20 @@ def run(E: Engine, rep: Report, tier: str) -> dict:
     m = is_(wterm, "defaultdict(int, Q_m.get_qubit_weight_map(Q_q)) if isinstance(Q_smp, DMMSamples) else defaultdict(Q_l)") if wterm is not None else None
     rep.check(m is not None and m["Q_l"] == ("lambda", 0, ("const", 1.0)) and mentions(m["Q_m"], "detuning_map"), "GUARD", "to_nested_dict|weights-only-for-dmm", "detuning-map weights for DMM samples, 1.0 otherwise", f"the weight map selection changed: {sh(wterm, 200)}", E.where(tnd))
     rep.check(m is not None and m["Q_smp"][0] in ("elem", "item"), "GUARD", "to_nested_dict|is_dmm-by-type", "is_dmm = isinstance(samples, DMMSamples)", "the DMM branch is no longer decided by the type of the channel's samples", E.where(tnd))
-    rep.floor("GUARD", 4)
+    # the SLM mask window is the first pulse of the global channel that starts the earliest
+    fm = E.method("pulser.sequence._schedule._Schedule", "find_slm_mask_times")
+    Sf = S(E, fm)
+    returned = {t[1] for t in sym.subterms(Sf.ret) if t[0] == "loop"}
+    upd = [l for l in Sf.logged("assign") if l.fn == fm.short and l.loops and l.target is not None and l.target[1] in returned]
+    ok = bool(upd)
+    for l in upd:
+        m = is_(unobj(l.value), "[Q_s.ti, Q_s.tf]")
+        lits_ = sym.conj_of(l.cond)
+        first = any(x[0] == "not" and x[1][0] == "carried" for x in lits_)
+        earlier = m is not None and any(is_(x, "Q_s.ti < Q_m[0]", {"Q_s": m["Q_s"]}) is not None and is_(x, "Q_s.ti < Q_m[0]", {"Q_s": m["Q_s"]})["Q_m"][0] == "carried" for x in lits_)
+        ok = ok and m is not None and m["Q_s"][0] == "elem" and (first or earlier) and any(is_(x, "isinstance(Q_s.type, Pulse)", {"Q_s": m["Q_s"]}) is not None for x in lits_)
+    rep.check(ok, "GUARD", "find_slm_mask_times|window=earliest-starting-global-pulse", "the mask window [ti, tf] is replaced only by a pulse that starts earlier than the current window", "the SLM mask window is no longer the first pulse of the earliest-starting global channel (a later-starting pulse can take over the window, so masked atoms are unprotected during part of the first pulse)", E.where(fm))
+    rep.floor("GUARD", 5)
 
     # ------------------------------------------------------------- CONTRA
     n_idx = 0
